@@ -177,6 +177,13 @@ Theorem C10_python_generic_alias_refuted :
 Proof. exact Proofs.C10.python_generic_alias_refuted. Qed.
 Print Assumptions C10_python_generic_alias_refuted.
 
+Theorem C10_python_generic_enum_arg_refuted :
+  exists cfg pd text, dom_C10 CPY pd = true /\ known_C10 CPY [] pd = ["C10-python-generic-enum-arg"%string] /\
+    py_generate uc_exec cfg pd = Ok text /\ contains_sub (lit "Al = List[G[int]]") text = true /\
+    contains_sub (lit "G = GV") text = true.
+Proof. exact Proofs.C10.python_generic_enum_arg_refuted. Qed.
+Print Assumptions C10_python_generic_enum_arg_refuted.
+
 (* reachable from the IR only (the parser rejects tag/content on an enum without data-carrying variants) *)
 Theorem C10_python_empty_union_refuted :
   exists cfg pd text, known_C10 CPY [] pd = ["C10-python-empty-union"%string] /\
